@@ -233,20 +233,21 @@ def check(prog: Program, tier: str) -> Result:
             if verdict == "ok":
                 res.ok("R19.1", fn.loc(c), fn.fq, text, detail)
             elif verdict == "incomplete":
-                res.ok("R19.1", fn.loc(c), fn.fq, text, detail)
-                res.notes.append(f"R19.1 {fn.loc(c)} [{fn.fq}] {text}: incomplete-freshness-set - {detail}")
+                res.bad("R19.1", fn.loc(c), fn.fq, text,
+                        f"{detail}: a variable, class or import of that name is not seen and is captured by the new binding")
             else:
                 res.bad("R19.1", fn.loc(c), fn.fq, text, detail)
     _template_binders(prog, res)
     _r19_2(prog, res)
     _r19_3(prog, res)
     _r19_4(prog, res)
+    _r19_5(prog, res)
     # a renamed binding is rewritten as ONE transaction (R19.3); that only keeps definition and uses together if the
     # scheduler applies a transaction wholly or not at all - decided by the C10 check, adopted here
     from . import c10 as _c10
     res.adopt(_c10.check(prog, tier), {"R10.1", "R10.3", "R10.6"}, "R19.3",
               "a rename is consistent only if its transaction is applied as a whole or not at all")
-    res.floors.update({"R19.1": 8, "R19.2": 4, "R19.3": 2, "R19.4": 1})
+    res.floors.update({"R19.1": 8, "R19.2": 4, "R19.3": 2, "R19.4": 1, "R19.5": 1})
     res.analysed.update({"named_node_constructions_reaching_output": n_ctor, "guarded_name_generators": sorted(f"{a}.{b}" for a, b in gens)})
     return res
 
@@ -496,6 +497,34 @@ def _r19_3(prog: Program, res: Result) -> None:
                    "the transaction id changes between the nodes of one renamed binding: the definition can be renamed without its uses")
 
 
+def _r19_5(prog: Program, res: Result) -> None:
+    """Renaming is injective: the rewrites are grouped by NEW name; a group that holds nodes with two different old
+    names (fooBar and FooBar both become foo_bar) would merge two variables.  Obligation: in the loop over the groups
+    the yields are reached only after a test that the nodes of the group share one old name."""
+    fn = prog.func("fixes", "align_variable_names_with_convention")
+    groups = [l for l in walk_own(fn.node) if isinstance(l, ast.For) and isinstance(l.target, ast.Tuple) and len(l.target.elts) == 2
+              and norm(l.iter).endswith(".items()") and any(isinstance(y, ast.Yield) for y in ast.walk(l))]
+    if not groups:
+        res.undecided("R19.5", fn.loc(), fn.fq, "groups of rewrites per new name", "grouping loop not found")
+        return
+    loop = groups[0]
+    nodes_var = norm(loop.target.elts[1])
+    ok = False
+    for i in loop.body:
+        if isinstance(i, ast.If) and i.body and isinstance(i.body[-1], ast.Continue):
+            t = i.test
+            m = re.fullmatch(r"len\((\w+)\) (>|!=|>=) (1|2)", norm(t))
+            if not m:
+                continue
+            var = m.group(1)
+            for _st, v in assignments(fn, var):
+                if v is not None and isinstance(v, (ast.SetComp,)) and norm(v.generators[0].iter) == nodes_var and (".id" in norm(v.elt) or ".name" in norm(v.elt)):
+                    ok = True
+    res.decide(ok, "R19.5", fn.loc(loop), fn.fq, f"groups of rewrites per new name: for {norm(loop.target)} in {short(loop.iter, 40)}",
+               "a group whose nodes have more than one old name is skipped" if ok else
+               "nodes with different old names that map to the same new name are rewritten together: two variables (fooBar, FooBar) become one (foo_bar)")
+
+
 def _r19_4(prog: Program, res: Result) -> None:
     """Use-site discovery respects shadowing by EVERY kind of parameter: where the collector of uses decides whether a
     nested function has its own binding of the name, it must look at positional-only, positional, *args, keyword-only
@@ -546,6 +575,10 @@ def _within(n, container) -> bool:
 from ..selftest import Variant  # noqa: E402
 
 VARIANTS: List[Variant] = [
+    Variant("groups-with-two-old-names-rewritten", "FIRE", "fixes",
+            "        if len(old_names) > 1:\n            continue  # Two different names, e.g. fooBar and FooBar, must not become the same name\n", "", "R19.5"),
+    Variant("moved-static-method-checked-against-functions-only", "FIRE", "object_oriented",
+            "        | {node.id for node in core.walk(root, ast.Name)}\n        | {node.name for node in core.walk(root, ast.ClassDef)}\n        | {(alias.asname or alias.name).split(\".\")[0] for alias in core.walk(root, ast.alias)}\n", "", "R19.1"),
     Variant("shadowing-test-sees-plain-parameters-only", "FIRE", "fixes",
             "        if any(core.walk(funcdef.args, ast.arg(arg=name))):", "        if any(core.filter_nodes(funcdef.args.args, ast.arg(arg=name))):", "R19.4"),
     Variant("shadowing-test-lists-all-parameter-kinds", "SILENT", "fixes",
